@@ -1,16 +1,34 @@
-//! Verification-only association-list stand-ins for hash maps / sets.
+//! Verification-only association-list stand-ins for hash maps / sets (compiled only under
+//! `cfg(kani)`, i.e. by `cargo kani`). Storage is an inline fixed-capacity array of typed slots:
+//! no heap buffer, no reallocation, no bulk copies, so that bounded model checking of code that
+//! uses the maps stays tractable. Holding more than [`CAP`] entries panics with a recognisable
+//! message (a verification bound, reported as such by the checker, never as a pass).
 use std::borrow::Borrow;
 use std::fmt;
+use std::mem::ManuallyDrop;
 
 pub const CAP: usize = 4;
-/// Vec-backed, capacity reserved once, never grown (no realloc, no bulk copies).
-pub struct VecMap<K, V> { e: Vec<(K, V)> }
-/// Verification builds never free map entries: dropping a map leaks its elements so that
-/// symbolic execution does not walk the drop glue of `Value` (BTreeMap arm).
-#[allow(unsafe_code)]
-impl<K, V> Drop for VecMap<K, V> { fn drop(&mut self) { unsafe { self.e.set_len(0); } } }
-impl<K, V> Default for VecMap<K, V> { fn default() -> Self { Self { e: Vec::with_capacity(CAP) } } }
-impl<K: Clone, V: Clone> Clone for VecMap<K, V> { fn clone(&self) -> Self { let mut m = Self::default(); for p in self.e.iter() { m.push_new(p.0.clone(), p.1.clone()); } m } }
+
+/// Inline association list. Entries live in slots `0..n`, compact, in insertion order
+/// (removal moves the last entry into the hole).
+pub struct VecMap<K, V> {
+    // ManuallyDrop: verification builds never free map entries, so symbolic execution does
+    // not walk the drop glue of the stored values.
+    e: ManuallyDrop<[Option<(K, V)>; CAP]>,
+    n: usize,
+}
+impl<K, V> Default for VecMap<K, V> {
+    fn default() -> Self { Self { e: ManuallyDrop::new([const { None }; CAP]), n: 0 } }
+}
+impl<K: Clone, V: Clone> Clone for VecMap<K, V> {
+    fn clone(&self) -> Self {
+        let mut m = Self::default();
+        let mut i = 0;
+        while i < CAP { if i < self.n { if let Some(p) = &self.e[i] { m.e[i] = Some((p.0.clone(), p.1.clone())); } } i += 1; }
+        m.n = self.n;
+        m
+    }
+}
 impl<K: fmt::Debug, V: fmt::Debug> fmt::Debug for VecMap<K, V> {
     fn fmt(&self, f: &mut fmt::Formatter<'_>) -> fmt::Result { f.debug_map().entries(self.iter()).finish() }
 }
@@ -19,65 +37,95 @@ impl<K, V> VecMap<K, V> {
     pub fn with_capacity(_n: usize) -> Self { Self::default() }
     pub fn with_hasher<S>(_s: S) -> Self { Self::default() }
     pub fn with_capacity_and_hasher(_n: usize, _s: super::hash::FxBuildHasherShim) -> Self { Self::default() }
-    pub fn len(&self) -> usize { self.e.len() }
-    pub fn is_empty(&self) -> bool { self.e.is_empty() }
-    pub fn clear(&mut self) { while let Some(p) = self.e.pop() { drop(p); } }
+    pub fn len(&self) -> usize { self.n }
+    pub fn is_empty(&self) -> bool { self.n == 0 }
+    pub fn clear(&mut self) { let mut i = 0; while i < CAP { self.e[i] = None; i += 1; } self.n = 0; }
     pub fn capacity(&self) -> usize { CAP }
     pub fn reserve(&mut self, _n: usize) {}
     pub fn shrink_to_fit(&mut self) {}
-    pub fn iter(&self) -> Iter<'_, K, V> { Iter { it: self.e.iter() } }
-    pub fn iter_mut(&mut self) -> IterMut<'_, K, V> { IterMut { it: self.e.iter_mut() } }
-    pub fn keys(&self) -> impl Iterator<Item = &K> + '_ { self.e.iter().map(|p| &p.0) }
-    pub fn values(&self) -> impl Iterator<Item = &V> + '_ { self.e.iter().map(|p| &p.1) }
-    pub fn values_mut(&mut self) -> impl Iterator<Item = &mut V> + '_ { self.e.iter_mut().map(|p| &mut p.1) }
+    pub fn iter(&self) -> Iter<'_, K, V> { Iter { it: self.e[..self.n].iter() } }
+    pub fn iter_mut(&mut self) -> IterMut<'_, K, V> { let n = self.n; IterMut { it: self.e[..n].iter_mut() } }
+    pub fn keys(&self) -> impl Iterator<Item = &K> + '_ { self.iter().map(|p| p.0) }
+    pub fn values(&self) -> impl Iterator<Item = &V> + '_ { self.iter().map(|p| p.1) }
+    pub fn values_mut(&mut self) -> impl Iterator<Item = &mut V> + '_ { self.iter_mut().map(|p| p.1) }
     pub fn into_keys(self) -> impl Iterator<Item = K> { self.into_iter().map(|p| p.0) }
     pub fn into_values(self) -> impl Iterator<Item = V> { self.into_iter().map(|p| p.1) }
     pub fn drain(&mut self) -> IntoIter<K, V> { let m = std::mem::take(self); m.into_iter() }
     pub fn retain<F: FnMut(&K, &mut V) -> bool>(&mut self, mut f: F) {
-        let mut i = self.e.len();
-        while i > 0 { i -= 1; let keep = { let p = &mut self.e[i]; f(&p.0, &mut p.1) }; if !keep { drop(self.e.swap_remove(i)); } }
+        let mut i = self.n;
+        while i > 0 {
+            i -= 1;
+            let keep = match &mut self.e[i] { Some(p) => f(&p.0, &mut p.1), None => true };
+            if !keep { let _ = self.take_at(i); }
+        }
     }
-    #[allow(unsafe_code)]
     fn push_new(&mut self, k: K, v: V) -> usize {
-        let i = self.e.len();
+        let i = self.n;
         if i >= CAP { panic!("kani_shim: map capacity exceeded (verification bound)"); }
-        // capacity CAP was reserved at construction; write in place, never grow
-        unsafe { std::ptr::write(self.e.as_mut_ptr().add(i), (k, v)); self.e.set_len(i + 1); }
+        self.e[i] = Some((k, v));
+        self.n = i + 1;
         i
     }
+    /// Removes slot `i`, moving the last entry into the hole.
+    fn take_at(&mut self, i: usize) -> (K, V) {
+        let last = self.n - 1;
+        let out = self.e[i].take();
+        if i != last { self.e[i] = self.e[last].take(); }
+        self.n = last;
+        match out { Some(p) => p, None => panic!("kani_shim: empty slot") }
+    }
+    fn slot(&self, i: usize) -> &(K, V) { match &self.e[i] { Some(p) => p, None => panic!("kani_shim: empty slot") } }
+    fn slot_mut(&mut self, i: usize) -> &mut (K, V) { match &mut self.e[i] { Some(p) => p, None => panic!("kani_shim: empty slot") } }
 }
 impl<K: Eq, V> VecMap<K, V> {
     /// Fixed trip count (CAP), no early exit: keeps symbolic execution linear.
     fn pos<Q: ?Sized + Eq>(&self, k: &Q) -> Option<usize> where K: Borrow<Q> {
-        let n = self.e.len();
         let mut found: Option<usize> = None;
         let mut i = 0;
-        while i < CAP { if i < n && found.is_none() && self.e[i].0.borrow() == k { found = Some(i); } i += 1; }
+        while i < CAP {
+            if i < self.n && found.is_none() { if let Some(p) = &self.e[i] { if p.0.borrow() == k { found = Some(i); } } }
+            i += 1;
+        }
         found
     }
     pub fn insert(&mut self, k: K, v: V) -> Option<V> {
-        match self.pos(&k) { Some(i) => Some(std::mem::replace(&mut self.e[i].1, v)), None => { self.push_new(k, v); None } }
+        match self.pos(&k) { Some(i) => Some(std::mem::replace(&mut self.slot_mut(i).1, v)), None => { self.push_new(k, v); None } }
     }
-    pub fn get<Q: ?Sized + Eq>(&self, k: &Q) -> Option<&V> where K: Borrow<Q> { match self.pos(k) { Some(i) => Some(&self.e[i].1), None => None } }
-    pub fn get_key_value<Q: ?Sized + Eq>(&self, k: &Q) -> Option<(&K, &V)> where K: Borrow<Q> { match self.pos(k) { Some(i) => Some((&self.e[i].0, &self.e[i].1)), None => None } }
-    pub fn get_mut<Q: ?Sized + Eq>(&mut self, k: &Q) -> Option<&mut V> where K: Borrow<Q> { match self.pos(k) { Some(i) => Some(&mut self.e[i].1), None => None } }
+    pub fn get<Q: ?Sized + Eq>(&self, k: &Q) -> Option<&V> where K: Borrow<Q> { match self.pos(k) { Some(i) => Some(&self.slot(i).1), None => None } }
+    pub fn get_key_value<Q: ?Sized + Eq>(&self, k: &Q) -> Option<(&K, &V)> where K: Borrow<Q> { match self.pos(k) { Some(i) => { let p = self.slot(i); Some((&p.0, &p.1)) } None => None } }
+    pub fn get_mut<Q: ?Sized + Eq>(&mut self, k: &Q) -> Option<&mut V> where K: Borrow<Q> { match self.pos(k) { Some(i) => Some(&mut self.slot_mut(i).1), None => None } }
     pub fn contains_key<Q: ?Sized + Eq>(&self, k: &Q) -> bool where K: Borrow<Q> { self.pos(k).is_some() }
     pub fn remove<Q: ?Sized + Eq>(&mut self, k: &Q) -> Option<V> where K: Borrow<Q> { self.remove_entry(k).map(|p| p.1) }
-    pub fn remove_entry<Q: ?Sized + Eq>(&mut self, k: &Q) -> Option<(K, V)> where K: Borrow<Q> { match self.pos(k) { Some(i) => Some(self.e.swap_remove(i)), None => None } }
+    pub fn remove_entry<Q: ?Sized + Eq>(&mut self, k: &Q) -> Option<(K, V)> where K: Borrow<Q> { match self.pos(k) { Some(i) => Some(self.take_at(i)), None => None } }
     pub fn entry(&mut self, k: K) -> Entry<'_, K, V> {
         match self.pos(&k) { Some(i) => Entry::Occupied(OccupiedEntry { m: self, i }), None => Entry::Vacant(VacantEntry { m: self, k }) }
     }
 }
-pub struct Iter<'a, K, V> { it: std::slice::Iter<'a, (K, V)> }
-impl<'a, K, V> Iterator for Iter<'a, K, V> { type Item = (&'a K, &'a V); fn next(&mut self) -> Option<Self::Item> { self.it.next().map(|p| (&p.0, &p.1)) } fn size_hint(&self) -> (usize, Option<usize>) { self.it.size_hint() } }
+pub struct Iter<'a, K, V> { it: std::slice::Iter<'a, Option<(K, V)>> }
+impl<'a, K, V> Iterator for Iter<'a, K, V> {
+    type Item = (&'a K, &'a V);
+    fn next(&mut self) -> Option<Self::Item> { match self.it.next() { Some(Some(p)) => Some((&p.0, &p.1)), _ => None } }
+    fn size_hint(&self) -> (usize, Option<usize>) { self.it.size_hint() }
+}
 impl<K, V> ExactSizeIterator for Iter<'_, K, V> {}
 impl<K, V> Clone for Iter<'_, K, V> { fn clone(&self) -> Self { Iter { it: self.it.clone() } } }
-pub struct IterMut<'a, K, V> { it: std::slice::IterMut<'a, (K, V)> }
-impl<'a, K, V> Iterator for IterMut<'a, K, V> { type Item = (&'a K, &'a mut V); fn next(&mut self) -> Option<Self::Item> { self.it.next().map(|p| (&p.0, &mut p.1)) } }
-pub struct IntoIter<K, V> { it: std::vec::IntoIter<(K, V)> }
-impl<K, V> Iterator for IntoIter<K, V> { type Item = (K, V); fn next(&mut self) -> Option<(K, V)> { self.it.next() } fn size_hint(&self) -> (usize, Option<usize>) { self.it.size_hint() } }
+pub struct IterMut<'a, K, V> { it: std::slice::IterMut<'a, Option<(K, V)>> }
+impl<'a, K, V> Iterator for IterMut<'a, K, V> {
+    type Item = (&'a K, &'a mut V);
+    fn next(&mut self) -> Option<Self::Item> { match self.it.next() { Some(Some(p)) => Some((&p.0, &mut p.1)), _ => None } }
+}
+pub struct IntoIter<K, V> { e: ManuallyDrop<[Option<(K, V)>; CAP]>, i: usize, n: usize }
+impl<K, V> Iterator for IntoIter<K, V> {
+    type Item = (K, V);
+    fn next(&mut self) -> Option<(K, V)> { if self.i < self.n { let p = self.e[self.i].take(); self.i += 1; p } else { None } }
+    fn size_hint(&self) -> (usize, Option<usize>) { (self.n - self.i, Some(self.n - self.i)) }
+}
 impl<K, V> ExactSizeIterator for IntoIter<K, V> {}
-impl<K, V> IntoIterator for VecMap<K, V> { type Item = (K, V); type IntoIter = IntoIter<K, V>; fn into_iter(mut self) -> IntoIter<K, V> { let e = std::mem::take(&mut self.e); IntoIter { it: e.into_iter() } } }
+impl<K, V> IntoIterator for VecMap<K, V> {
+    type Item = (K, V);
+    type IntoIter = IntoIter<K, V>;
+    fn into_iter(self) -> IntoIter<K, V> { IntoIter { e: self.e, i: 0, n: self.n } }
+}
 impl<'a, K, V> IntoIterator for &'a VecMap<K, V> { type Item = (&'a K, &'a V); type IntoIter = Iter<'a, K, V>; fn into_iter(self) -> Iter<'a, K, V> { self.iter() } }
 impl<'a, K, V> IntoIterator for &'a mut VecMap<K, V> { type Item = (&'a K, &'a mut V); type IntoIter = IterMut<'a, K, V>; fn into_iter(self) -> IterMut<'a, K, V> { self.iter_mut() } }
 impl<K: Eq, V> FromIterator<(K, V)> for VecMap<K, V> { fn from_iter<I: IntoIterator<Item = (K, V)>>(it: I) -> Self { let mut m = Self::default(); for (k, v) in it { m.insert(k, v); } m } }
@@ -97,17 +145,17 @@ impl<'a, K, V> Entry<'a, K, V> {
     pub fn key(&self) -> &K { match self { Entry::Occupied(o) => o.key(), Entry::Vacant(v) => &v.k } }
 }
 impl<'a, K, V> OccupiedEntry<'a, K, V> {
-    pub fn key(&self) -> &K { &self.m.e[self.i].0 }
-    pub fn get(&self) -> &V { &self.m.e[self.i].1 }
-    pub fn get_mut(&mut self) -> &mut V { &mut self.m.e[self.i].1 }
-    pub fn into_mut(self) -> &'a mut V { &mut self.m.e[self.i].1 }
-    pub fn insert(&mut self, v: V) -> V { std::mem::replace(&mut self.m.e[self.i].1, v) }
-    pub fn remove(self) -> V { self.m.e.swap_remove(self.i).1 }
-    pub fn remove_entry(self) -> (K, V) { self.m.e.swap_remove(self.i) }
+    pub fn key(&self) -> &K { &self.m.slot(self.i).0 }
+    pub fn get(&self) -> &V { &self.m.slot(self.i).1 }
+    pub fn get_mut(&mut self) -> &mut V { &mut self.m.slot_mut(self.i).1 }
+    pub fn into_mut(self) -> &'a mut V { &mut self.m.slot_mut(self.i).1 }
+    pub fn insert(&mut self, v: V) -> V { std::mem::replace(&mut self.m.slot_mut(self.i).1, v) }
+    pub fn remove(self) -> V { self.m.take_at(self.i).1 }
+    pub fn remove_entry(self) -> (K, V) { self.m.take_at(self.i) }
 }
 impl<'a, K, V> VacantEntry<'a, K, V> {
     pub fn key(&self) -> &K { &self.k }
-    pub fn insert(self, v: V) -> &'a mut V { let i = self.m.push_new(self.k, v); &mut self.m.e[i].1 }
+    pub fn insert(self, v: V) -> &'a mut V { let i = self.m.push_new(self.k, v); &mut self.m.slot_mut(i).1 }
 }
 
 #[derive(Clone)]
@@ -151,4 +199,3 @@ impl<T: Eq> FromIterator<T> for VecSet<T> { fn from_iter<I: IntoIterator<Item = 
 impl<T: Eq> Extend<T> for VecSet<T> { fn extend<I: IntoIterator<Item = T>>(&mut self, it: I) { for t in it { self.insert(t); } } }
 impl<T: Eq> PartialEq for VecSet<T> { fn eq(&self, o: &Self) -> bool { self.len() == o.len() && self.is_subset(o) } }
 impl<T: Eq> Eq for VecSet<T> {}
-
